@@ -47,8 +47,9 @@ def split_targs(s):
 
 
 class FuncInfo:
-    def __init__(self, cname, ret='?', base=None, static=False, self_const=True, params=None, ref=False, as_base=False, lead_base=()):
+    def __init__(self, cname, ret='?', base=None, static=False, self_const=True, params=None, ref=False, as_base=False, lead_base=(), template=None):
         self.cname = cname
+        self.template = template   # call rendering with placeholders %aN (argument), %pN (address of argument), %bN (iterator base of argument)
         self.ret = ret          # internal type of the value (for Ref returns: the referred type)
         self.base = base        # for It returns: base expr template; '%self' is replaced by the object expr
         self.static = static
@@ -759,6 +760,17 @@ class Ctx:
             if n in self.methods:
                 fi = self.methods[n]
                 self.fire('method_call')
+                if getattr(fi, 'template', None):
+                    self.count_call(fi.cname)
+                    out = fi.template
+                    for i_ in range(len(a) - 1, -1, -1):
+                        if '%a' + str(i_) in out:
+                            out = out.replace('%a' + str(i_), self.em_paren(a[i_]))
+                        if '%p' + str(i_) in out:
+                            out = out.replace('%p' + str(i_), self.em_addr(a[i_]))
+                        if '%b' + str(i_) in out:
+                            out = out.replace('%b' + str(i_), self.need_base(a[i_]))
+                    return out.replace('%self', self.selfname)
                 pre_args = []
                 if targs and getattr(fi, 'targs_as_args', False):
                     for x in split_targs(targs):
